@@ -1234,16 +1234,18 @@ class SparseDict(Dict):
                         % (key, type(self).__name__, self.name)
                     )
                 raise
-        if key in self:
+        # whether a key is required is decided by the declared field, not by
+        # whatever member currently sits under the key
+        schema = self._field_schema_for(key)
+        if schema is not None:
+            optional = schema.optional
+        elif key in self:
             optional = self[key].optional
         else:
-            schema = self._field_schema_for(key)
-            if schema is None:
-                raise TypeError(
-                    "May not request del for unknown key %r on %s %r"
-                    % (key, type(self).__name__, self.name)
-                )
-            optional = schema.optional
+            raise TypeError(
+                "May not request del for unknown key %r on %s %r"
+                % (key, type(self).__name__, self.name)
+            )
         if not optional:
             raise TypeError(
                 "May not delete required key %r on %s %r"
@@ -1260,7 +1262,9 @@ class SparseDict(Dict):
     def pop(self, key):
         if key not in self:
             raise KeyError(key)
-        if self.minimum_fields == "required" and not self[key].optional:
+        schema = self._field_schema_for(key)
+        optional = schema.optional if schema is not None else self[key].optional
+        if self.minimum_fields == "required" and not optional:
             raise TypeError(
                 "May not pop required key %r on %s %r"
                 % (key, type(self).__name__, self.name)
